@@ -77,6 +77,12 @@ def confirm_and_run(sid, checks, tier, seeds):
                              "caught": rc == 1, "wall_s": round(wall, 1), "first": first})
                 print(sid, chk, tier, "seed", seed, "->", "CAUGHT" if rc == 1 else
                       "missed (exit {})".format(rc), first[:150], flush=True)
+        meta["breaks_property"] = meta["property"]
+        meta["what_i_ran"] = (
+            "tools/seedrun.py {}: scratch worktree of /repo under /tmp; git apply patch.diff; "
+            "repository tests with PYTHONPATH=<worktree>/src (must pass); demo.py without the "
+            "change (must pass) and with it (must fail); check.py <check> --tier {} with "
+            "SYSLOSS_SRC=<worktree>/src VERIF_NOSHRINK=1; worktree removed").format(sid, tier)
         json.dump(meta, open(meta_p, "w"), indent=1)
         return meta
     finally:
